@@ -207,23 +207,40 @@ OPERANDS = []  # the operand tensors of the current call (results must not share
 HELD = []      # (output tensor, expected, scale, rtol, what) of every comparison of the current case
 
 
+def verify_held():
+    for out, ref, scale, rtol, what in HELD:
+        o = out.detach().double().numpy()
+        z = o[0] + 1j * o[1]
+        err = np.abs(z - ref)
+        require(bool(np.all(err <= rtol * scale)) if err.size else True, what + ":earlier-result-changed",
+                f"{what}: a result returned by an earlier call no longer holds its value after later calls of the same function")
+
+
 def check(case):
     del HELD[:]
     r = check_once(case)
     if not case["op"].startswith("reject") and case.get("a") is not None and len(case["a"]["re"]) <= 64:
         for _ in range(4):        # five applications with identical operands in total: the kernel keeps no state ...
             check_once(case)
-        for out, ref, scale, rtol, what in HELD:      # ... and a result handed out earlier is not altered by later calls
-            o = out.detach().double().numpy()
-            z = o[0] + 1j * o[1]
-            err = np.abs(z - ref)
-            require(bool(np.all(err <= rtol * scale)) if err.size else True, what + ":earlier-result-changed",
-                    f"{what}: a result returned by an earlier call no longer holds its value after later calls of the same function")
+        if case.get("b") is None or len(case["b"]["re"]) <= 64:
+            # history: the same operand tensor objects refilled in place with other values (first operand halved and negated, second doubled)
+            # - the function must see the current contents
+            verify_held()
+            del HELD[:]
+            c2 = dict(case, a=dict(case["a"], re=[-0.5 * x for x in case["a"]["re"]], im=[-0.5 * x for x in case["a"]["im"]]))
+            if case.get("b") is not None and case["op"] not in ("scalar_divide", "elementwise_division", "reject_div"):
+                c2["b"] = dict(case["b"], re=[2.0 * x for x in case["b"]["re"]], im=[2.0 * x for x in case["b"]["im"]])
+            check_once(c2, reuse=True)
+            check_once(case, reuse=True)
+        verify_held()      # ... and a result handed out earlier is not altered by later calls
     del HELD[:]
     return r
 
 
-def check_once(case):
+LAST = {}      # operand tensor objects of the previous call (re-used, refilled in place, by the history step of check())
+
+
+def check_once(case, reuse=False):
     from qucumber.utils import cplx
     op = case["op"]
     a = dec(case["a"]) if "a" in case else None
@@ -232,6 +249,14 @@ def check_once(case):
         a, b = tile_contraction(a, b, case["tile_k"])
     ta = enc(a) if a is not None else None
     tb = enc(b) if b is not None else None
+    if reuse and LAST.get("ta") is not None and ta is not None and LAST["ta"].shape == ta.shape and (tb is None or (LAST.get("tb") is not None and LAST["tb"].shape == tb.shape)):
+        # the caller's operand tensors are the SAME objects as in the previous call, refilled in place with other values
+        LAST["ta"].copy_(ta)
+        ta = LAST["ta"]
+        if tb is not None:
+            LAST["tb"].copy_(tb)
+            tb = LAST["tb"]
+    LAST["ta"], LAST["tb"] = ta, tb
     ka = ta.clone() if ta is not None else None
     kb = tb.clone() if tb is not None else None
     OPERANDS[:] = [ta, tb]
